@@ -1,7 +1,9 @@
 package server
 
 import (
+	"context"
 	"net/http"
+	"net/url"
 	"time"
 )
 
@@ -157,4 +159,86 @@ func HarnessDeployGate() {
 	vCover(err != nil, "failed deploy reachable")
 	vCover(err == nil && len(vTrace) > 0 && vClientResults[0].body == "FROM[new0:80]", "request served by a new target reachable")
 	_ = http.StatusOK
+}
+
+// HarnessRolloutDeployGate: the same gate for `rollout deploy`, which works on the live service object: opted-in clients
+// keep being served by the previous rollout targets (or the active ones) until every new rollout target is healthy.
+func HarnessRolloutDeployGate() {
+	vT2(vParam("preemptions", 0), vParam("firings", 12))
+	vSortMode = 0
+	router := NewRouter("/state")
+	interval := vDur("interval")
+	vAssume(interval > 0)
+	ptimeout := vDur("probe_timeout")
+	deployTimeout := vDur("deploy_timeout")
+	drainTimeout := vDur("drain_timeout")
+	topts := TargetOptions{HealthCheckConfig: HealthCheckConfig{Path: "/up", Interval: interval, Timeout: ptimeout}}
+	svc, _ := vInstallOldService(router, topts)
+	var prevRollout *LoadBalancer
+	if vChoose("has_previous_rollout", 2) == 1 {
+		t, err := NewTarget("rold:80", topts)
+		vAssert(err == nil, "setup: rollout target builds")
+		t.state = TargetStateHealthy
+		prevRollout = &LoadBalancer{healthy: TargetList{}, all: TargetList{t}}
+		t.stateConsumer = prevRollout
+		prevRollout.updateHealthyTargets()
+		svc.rollout = prevRollout
+	}
+	svc.rolloutController = NewRolloutController(100, nil) // every cookie-bearing request opts in
+	P := vParam("probes", 2)
+	sc := &vProbeScript{parkAfter: true}
+	for p := 0; p < P; p++ {
+		tag := "p" + vItoa(p)
+		sc.outcomes = append(sc.outcomes, vProbeOutcome{kind: vProbeStatus, refused: vBool(tag + "_refused"), status: vIntRange(tag+"_status", 100, 599), latency: vDur(tag + "_lat")})
+	}
+	vProbeScripts["new0:80"] = sc
+	root := vRootChain(router)
+	done := false
+	arrival := vIntRange("arrival", 0, vParam("arrival_points", 8))
+	vProxyPlans[0] = &vProxyPlan{service: 0}
+	go func() {
+		vArriveAfter(arrival)
+		req := &http.Request{Method: "GET", URL: &url.URL{Path: "/"}, Header: http.Header{"Cookie": []string{RolloutCookieName + "=x"}}, Host: "h", RemoteAddr: "1.2.3.4:5"}
+		req = req.WithContext(context.WithValue(context.Background(), vReqKey, 0))
+		w := vNewRecorder()
+		vEmit(vEvent{kind: "arrive", req: 0})
+		root.ServeHTTP(w, req)
+		w.finish()
+		vClientResults[0] = &vClientResult{done: true, status: w.status, body: string(w.body), at: vNow()}
+		vEmit(vEvent{kind: "respond", req: 0, status: w.status})
+		done = true
+	}()
+	err := router.SetRolloutTargets("svc", []string{"new0:80"}, deployTimeout, drainTimeout)
+	vEmit(vEvent{kind: "cmd_return", ok: err == nil})
+	vCmdReturned = true
+	vBlockUntil(func() bool { return done })
+	vNote(vTraceString())
+	okIdx := -1
+	for k, e := range vTrace {
+		if e.kind == "probe_end" && e.target == "new0:80" && e.ok && okIdx < 0 {
+			okIdx = k
+		}
+	}
+	for k, e := range vTrace {
+		if e.kind == "forward_begin" && e.target == "new0:80" {
+			vAssert(okIdx >= 0 && okIdx < k, "rollout gate: an opted-in request reaches a new rollout target only after it answered a probe with 2xx")
+			vAssert(err == nil, "rollout gate: a failed rollout deploy never sends a request to the new targets")
+		}
+	}
+	if err != nil {
+		vAssert(svc.rollout == prevRollout, "rollout gate: a failed rollout deploy leaves the rollout targets as they were")
+	}
+	res := vClientResults[0]
+	if res.status != 200 {
+		// only explanation allowed: the new target failed a later probe and left the rotation (C09: 503 when none is healthy)
+		failedLater := false
+		for k, e := range vTrace {
+			if e.kind == "probe_end" && e.target == "new0:80" && !e.ok && okIdx >= 0 && k > okIdx {
+				failedLater = true
+			}
+		}
+		vAssert(res.status == 503 && failedLater && err == nil, "rollout gate: the opted-in client is served throughout (unless the only rollout target failed a later probe)")
+	}
+	vCover(err == nil && res.body == "FROM[new0:80]", "served by the new rollout target reachable")
+	vCover(err != nil, "failed rollout deploy reachable")
 }
